@@ -3,6 +3,7 @@ import MidnightZK.Model.C07.Poseidon
 import MidnightZK.Gen.C07Poseidon
 import MidnightZK.Model.C07.Sha2
 import MidnightZK.Gen.C07Sha
+import MidnightZK.Model.C07.ShaVarlen
 /-! Line-protocol handler of property C07. -/
 namespace MidnightZK.C07.Driver
 open MidnightZK MidnightZK.C07
@@ -113,6 +114,11 @@ def answer (line : String) : String :=
   | ["rmd160", m] => match parseBytes? m with
     | some b => fmtBytes (rmd160.digest b)
     | none => "bad-op"
+  | ["sha256varlen", maxLen, len, buf] =>
+    match maxLen.toNat?, len.toNat?, parseBytes? buf with
+    | some m, some n, some b =>
+      if b.length ≠ m ∨ m % 64 ≠ 0 ∨ m = 0 ∨ n > m then "bad-op" else fmtBytes (sha256Varlen sha256 m b n)
+    | _, _, _ => "bad-op"
   | ["pad256", m] => match parseBytes? m with
     | some b => fmtBytes (sha256.padRust b)
     | none => "bad-op"
